@@ -157,3 +157,57 @@ Theorem C06_pipeline_nonvacuous :
 Proof. exact IndexerPipeline.c06_pipeline_nonvacuous. Qed.
 Print Assumptions C06_pipeline_core_partial.
 Print Assumptions C06_pipeline_nonvacuous.
+
+(** ---- the single-visit condition PROVED (proofs/IndexerFresh.v): for EVERY Core workspace in which the identifier ranges
+    of each file's AST are pairwise distinct ([IndexerFresh.keys g parts] = the ranges of CoreParts.file_idents tagged with
+    the file number g), the position log of the indexer model satisfies [log_fresh].  Every identifier occurrence is keyed
+    at most once; the `let` of a record body keys its range twice -- definition of the new field, then reference to the
+    overridden field, whose own definition range was consumed earlier and is therefore different. *)
+From TG.Model Require CoreParts.
+From TG.Proofs Require IndexerFresh.
+Theorem C06_log_fresh_core : forall w : CoreAst.workspace,
+  (forall g body, Scope.nthN (CoreAst.ws_files w) g = Some body ->
+     NoDup (map (fun i => CoreAst.mkR g (CoreAst.r_lo (CoreAst.i_rng i)) (CoreAst.r_hi (CoreAst.i_rng i))) (CoreParts.file_idents body))) ->
+  IndexerOps.log_fresh (Indexer.index_ws w) = true.
+Proof. exact IndexerFresh.index_ws_log_fresh_idents. Qed.
+
+(** C06 for the Core fragment with hypotheses on the AST only *)
+Theorem C06_coherent_core : forall toks (w : CoreAst.workspace),
+  toks_sorted toks = true ->
+  (forall g body, Scope.nthN (CoreAst.ws_files w) g = Some body -> Forall (IndexerCoh.stmt_ok toks g) body) ->
+  (forall g body, Scope.nthN (CoreAst.ws_files w) g = Some body ->
+     NoDup (map (fun i => CoreAst.mkR g (CoreAst.r_lo (CoreAst.i_rng i)) (CoreAst.r_hi (CoreAst.i_rng i))) (CoreParts.file_idents body))) ->
+  let s := Indexer.index_ws w in
+  forall f p t, goto_definition (IndexerOps.abs s) f p = SOk (Some t) ->
+  exists c n rs,
+    tok_name toks c = Some n /\ (fr_file c = f /\ fr_lo c <= p /\ p < fr_hi c) /\
+    (forall c' n', In (c', n') toks -> (fr_file c' = f /\ fr_lo c' <= p /\ p < fr_hi c') -> c' = c) /\
+    tok_name toks t = Some n /\
+    references (IndexerOps.abs s) f p = SOk (Some rs) /\
+    (forall r, In r rs -> tok_name toks r = Some n /\
+       forall q, fr_lo r <= q -> q < fr_hi r -> goto_definition (IndexerOps.abs s) (fr_file r) q = SOk (Some t)) /\
+    (t = c \/ In c rs).
+Proof. exact IndexerPipeline.c06_coherent_core_ast. Qed.
+
+(** C06 for the model pipeline: NO hypothesis.  For EVERY analysis of Pipeline.analyze that yields a Core workspace, with
+    [toks] = the identifier tokens of its trees, at every position of every file: the definition found is an identifier
+    token with the name of the token under the cursor; every reference is such a token and leads back to the same
+    definition; the cursor token is the definition or one of the references.  (toks_sorted, stmt_ok: builder bridge's
+    ws_id_toks_sorted / pipeline_symbol_side_conditions / analyze_wf; NoDup: bridge's pipeline_idents_nodup.) *)
+Theorem C06_pipeline_core : forall pfuel cfuel files root a w,
+  Pipeline.analyze pfuel cfuel files root = Some a -> Pipeline.an_core a = AstToCore.Ok w ->
+  let toks := BridgeToks.ws_id_toks (BridgeSymbol.an_trees a) in
+  let s := Indexer.index_ws w in
+  forall f p t, goto_definition (IndexerOps.abs s) f p = SOk (Some t) ->
+  exists c n rs,
+    tok_name toks c = Some n /\ (fr_file c = f /\ fr_lo c <= p /\ p < fr_hi c) /\
+    (forall c' n', In (c', n') toks -> (fr_file c' = f /\ fr_lo c' <= p /\ p < fr_hi c') -> c' = c) /\
+    tok_name toks t = Some n /\
+    references (IndexerOps.abs s) f p = SOk (Some rs) /\
+    (forall r, In r rs -> tok_name toks r = Some n /\
+       forall q, fr_lo r <= q -> q < fr_hi r -> goto_definition (IndexerOps.abs s) (fr_file r) q = SOk (Some t)) /\
+    (t = c \/ In c rs).
+Proof. exact IndexerPipeline.c06_pipeline. Qed.
+Print Assumptions C06_log_fresh_core.
+Print Assumptions C06_coherent_core.
+Print Assumptions C06_pipeline_core.
